@@ -53,7 +53,11 @@ func checkC07(c FuzzCase, o *Obs) error {
 	case "dialreply":
 		reached, err = fuzzDialReply(c)
 	case "proxyreply":
+		seen := proxyRefusalSeen
 		reached, err = fuzzProxyReply(c)
+		if proxyRefusalSeen > seen {
+			o.Class("proxy_complete_refusal")
+		}
 	case "headers":
 		reached, err = fuzzHeaders(c)
 	default:
@@ -268,6 +272,18 @@ func fuzzProxyReply(c FuzzCase) (bool, error) {
 	if err != nil && conn != nil {
 		return false, errors.New("proxyreply: Dial returned a connection together with an error")
 	}
+	// A complete refusal (well-formed head, status other than 200) is an
+	// error return at once: a Dial that goes on asking the proxy connection
+	// for bytes would wait forever on a proxy that stays silent.
+	if ref, perr := wsref.ParseResponseStrict(c.Data); perr == nil && ref.Code != 200 && ref.Code >= 100 && strings.HasPrefix(ref.Proto, "HTTP/1.") && len(ref.Proto) == 8 {
+		proxyRefusalSeen++
+		if err == nil {
+			return false, fmt.Errorf("proxyreply: the proxy refused CONNECT with status %d, yet Dial returned a connection", ref.Code)
+		}
+		if rc.Starved > 0 {
+			return false, fmt.Errorf("proxyreply: after the complete refusal head (status %d, %d further bytes) Dial asked the proxy connection for more input %d time(s); with a proxy that stays silent it never returns", ref.Code, len(ref.Rest), rc.Starved)
+		}
+	}
 	// reached the CONNECT reply parser if a CONNECT was sent
 	return len(rc.Reqs) >= 1, nil
 }
@@ -367,8 +383,15 @@ func mutateBytes(t *rapid.T, b []byte) []byte {
 	return out
 }
 
+// proxyRefusalSeen counts proxyreply cases with a complete refusal head.
+var proxyRefusalSeen int
+
 var replyTemplates = []string{
 	okHandshake,
+	"HTTP/1.1 403 Forbidden\r\nContent-Length: 100\r\n\r\ndenied",
+	"HTTP/1.1 403 Forbidden\r\nTransfer-Encoding: chunked\r\n\r\n6\r\ndenied\r\n",
+	"HTTP/1.1 503 Service Unavailable\r\nTransfer-Encoding: chunked\r\n\r\n",
+	"HTTP/1.0 502 Bad Gateway\r\nContent-Length: 7\r\n\r\n",
 	"HTTP/1.1 101 Switching Protocols\r\nUpgrade: websocket\r\nConnection: Upgrade\r\nSec-WebSocket-Accept: $ACCEPT\r\nSec-WebSocket-Extensions: permessage-deflate; server_no_context_takeover; client_no_context_takeover\r\nSec-WebSocket-Protocol: chat\r\n\r\n\x81\x02hi",
 	"HTTP/1.1 101\r\nUpgrade: websocket\r\nConnection: Upgrade\r\nSec-WebSocket-Accept: $ACCEPT\r\n\r\n",
 	"HTTP/1.1 200 OK\r\nContent-Length: 5\r\n\r\nhello",
